@@ -59,6 +59,8 @@ def extract():
     for path in SRC:
         s = strip_tests(open(path).read())
         for name, body in functions(s):
+            if name == "process_internal":
+                continue  # its arms are alternatives: covered by the (sorted) gate and dispatch tables below
             if name.startswith("process_") or name in ("authenticate", "remove_user", "send_isupport",
                                                        "send_names_from_channel", "send_who_info"):
                 key = os.path.basename(path) + "::" + name
